@@ -38,6 +38,7 @@ typedef struct {
   int brinit_logged;
   int ready;                        /* analysis_init + block_init succeeded and not cleared */
   int fed;                          /* end of input already signalled */
+  int dumppk;                       /* audio packets still to be dumped byte by byte */
 } enc_t;
 static enc_t E[NE];
 
@@ -127,7 +128,10 @@ static void drain(enc_t *x){
       pk_add(x,&op,W);
       ev_begin("Pkt"); ev_i("type",type); ev_i("mode",mode); ev_i("W",W); ev_i("lW",lW); ev_i("nW",nW);
       ev_i("gp",op.granulepos); ev_i("eos",op.e_o_s); ev_i("no",op.packetno); ev_i("bytes",op.bytes); ev_i("managed",bm->managed);
-      ev_i("k",x->npk-3-1); ev_i("x",(int)(x-E)); ev_est(x); ev_end();
+      ev_i("k",x->npk-3-1); ev_i("x",(int)(x-E));
+      if(x->dumppk>0 && op.bytes<=30000){ x->dumppk--; /* the packet byte by byte for the strict reader; cut = the rate manager changed the size of the candidate it chose */
+        ev_i("cut",bm->managed&&bm->choice>=0&&bm->choice<PACKETBLOBS&&op.bytes!=sz[bm->choice]?1:0); ev_arr_begin("pbytes"); for(long i=0;i<op.bytes;i++) ev_arr_i(op.packet[i]); ev_arr_end(); }
+      ev_est(x); ev_end();
       if(op.e_o_s) x->eos_seen=1;
     }
   }
@@ -199,7 +203,7 @@ static void cmd(char **tok,int nt){
       unsigned char *p=h[0].packet; if(h[0].bytes>=30){ ev_i("idver",p[7]|p[8]<<8|p[9]<<16|(long long)p[10]<<24); ev_i("idch",p[11]); ev_i("idrate",p[12]|p[13]<<8|p[14]<<16|(long long)p[15]<<24);
         ev_i("idmax",(int32_t)(p[16]|p[17]<<8|p[18]<<16|(uint32_t)p[19]<<24)); ev_i("idnom",(int32_t)(p[20]|p[21]<<8|p[22]<<16|(uint32_t)p[23]<<24)); ev_i("idmin",(int32_t)(p[24]|p[25]<<8|p[26]<<16|(uint32_t)p[27]<<24));
         ev_i("idbs0",1<<(p[28]&15)); ev_i("idbs1",1<<(p[28]>>4)); ev_i("idframe",p[29]&1); } }
-    if(ret==0&&nt>=3&&!strcmp(tok[2],"dump")){ /* the identification and setup packets byte by byte, for the strict reader (SetupParse.tla) */
+    if(ret==0&&nt>=3&&!strcmp(tok[2],"dump")){ x->dumppk=nt>=4?atoi(tok[3]):0; /* the identification and setup packets byte by byte, for the strict reader (SetupParse.tla) */
       for(int k=0;k<3;k+=2){ ev_arr_begin(k==0?"idbytes":"setupbytes"); for(long i=0;i<h[k].bytes;i++) ev_arr_i(h[k].packet[i]); ev_arr_end(); } }
     ev_vi(x); ev_end(); }
   else if(!strcmp(c,"ewrite")&&nt>=4){
